@@ -313,6 +313,7 @@ class Driver:
             return 'abort'
         resolved = st.tpc_vote(t)
         if end == 'abortV':
+            self.reads_in_flight()
             st.tpc_abort(t)
             return 'abort'
         tid = self.tpc_finish(t)
@@ -433,6 +434,7 @@ class Driver:
             return 'undo-open'
         if op.get('end') == 'abortV':
             st.tpc_vote(t)
+            self.reads_in_flight()
             st.tpc_abort(t)
             return 'abort'
         st.tpc_vote(t)
@@ -517,6 +519,7 @@ class Driver:
             mrecs.append(MRec(oid, DATA, data, None, strong, cls))
         if op.get('end') == 'abortV':
             st.tpc_vote(t)
+            self.reads_in_flight()
             st.tpc_abort(t)
             return 'abort'
         mt = MTxn(None, status, user, desc, self.ext_bytes(ext), mrecs,
@@ -832,6 +835,23 @@ class Driver:
     def op_sweep(self, op):
         self.full_sweep('sweep: ')
         return 'sweep'
+
+    def reads_in_flight(self):
+        """Other threads keep reading while a voted transaction is in
+        flight: loads through the storage's reader pool of the most
+        recently written objects, which lie near the end of the file (the
+        pooled handle's read-ahead then holds the in-flight bytes)."""
+        seen = set()
+        for t in reversed(self.model.txns[-3:]):
+            for r in t.recs:
+                if r.oid in seen:
+                    continue
+                seen.add(r.oid)
+                try:
+                    self.st.load(r.oid)
+                    self.st.loadBefore(r.oid, t.tid)
+                except Exception:       # noqa: B902 -- judged by the sweeps
+                    pass
 
     def op_wrong(self, op):
         """Calls made with a transaction that is not the one being
